@@ -408,6 +408,8 @@ type pairWorld struct {
 	devs     int
 	problems []vtProblem
 	contacts map[*Agent]func()
+	// restart exchange in progress: 0 none, 1 offer under way, 2 answer under way; initiator; exchanges started
+	exch, exchInit, exchanges int
 	cmu      sync.Mutex
 	ledgers  [2]*ledger
 	monitor  bool // evaluate the C03 selection oracle after every event
